@@ -38,7 +38,9 @@ func main() {
 	clusters := flag.String("clusters", ",c1", "comma separated cluster modes ('' = single node)")
 	only := flag.String("only", "", "substring filter on endpoint names")
 	flag.StringVar(&tempoRuleFlag, "tempo-rule", "", "date rule of the tempo tag tables: '' = learn from the real writer | utc | local")
+	seed := flag.Int64("seed", 0, "selects the sub-second parts of offsets / ranges in the query texts")
 	flag.Parse()
+	subMs = []int64{250, 1, 999, 500, 750, 37, 503}[int(uint64(*seed)%7)]
 	switch *mode {
 	case "dump":
 		dump(*only, strings.Split(*clusters, ","))
